@@ -36,6 +36,10 @@ def extra(ctx):
     if rc != 0:
         ctx.fail("proof", "the extracted route table does not compile: " + " ".join(out.split())[:300], detail=out[-2000:])
         return
+    rc, out = ctx.run(["coqc", "-Q", ctx.COQ, "AGH", "-Q", pgen, "C11Priv", "-w", "none", os.path.join(pgen, "RoutesMux.v")], cwd=pgen, timeout=600)
+    if rc != 0:
+        ctx.fail("proof", "the extracted mux table does not compile: " + " ".join(out.split())[:300], detail=out[-2000:])
+        return
     tab = json.load(open(gen))
     routes = tab["routes"]
     kinds = {}
@@ -65,13 +69,29 @@ def extra(ctx):
                 "From AGH Require Import Proofs.AuthMethod.\n"
                 "Definition OC := Eval vm_compute in idx route_method_ok routes.\nPrint OC.\n"
                 "From AGH Require Import Model.AuthLife Proofs.AuthLife.\n"
-                "Definition OA := Eval vm_compute in idx (route_after_setup_ok reg_method) routes.\nPrint OA.\n")
+                "Definition OA := Eval vm_compute in idx (route_after_setup_ok reg_method) routes.\nPrint OA.\n"
+                "From AGH Require Import Model.AuthMux.\nFrom C11Priv Require Import RoutesMux.\n"
+                "Definition OX := Eval vm_compute in idx row_private mux_rows.\nPrint OX.\n"
+                "Definition OE := Eval vm_compute in idx escape_ok mux_escapes.\nPrint OE.\n")
     rc, out = ctx.run(["coqc", "-Q", ctx.COQ, "AGH", "-Q", pgen, "C11Priv", "-w", "none", src], cwd=ctx.workdir, timeout=600)
     if rc != 0:
         ctx.fail("proof", "the route table could not be evaluated: " + " ".join(out.split())[:300], detail=out[-2000:])
         return
     found = []
-    lists = {"OR": routes, "OB": tab["bindings"], "OM": tab["muxes"], "OS": tab["servers"], "ON": routes, "OC": routes, "OA": routes}
+    mx = tab.get("mux") or {}
+    regs = mx.get("default_registrants") or []
+    ctx.extra_coverage["mux_identity"] = {
+        "servers": [{"pos": r["pos"], "mux": r["mux"], "kind": r["kind"]} for r in mx.get("rows") or []],
+        "escapes": ["%s -> %s at %s" % (e["mux"], e["callee"], e["pos"]) for e in mx.get("escapes") or []],
+        "default_mux_mentions": mx.get("default_mentions") or [], "pprof_calls": mx.get("pprof_calls") or [],
+        "deps_files_scanned": mx.get("deps_scanned"),
+        "packages_registering_on_DefaultServeMux": ["%s (%s, %s): %s" % (r["pkg"], r["pos"], "init" if r["in_init"] else "func " + r["func"], " ".join(r["patterns"])) for r in regs],
+    }
+    ctx.extra_obligations += len(mx.get("rows") or []) + len(mx.get("escapes") or []) + 2
+    onmux = "; ".join("%s registers %s in %s (%s)" % (r["pkg"], ", ".join(r["patterns"]), "an init function" if r["in_init"] else "func " + r["func"], r["pos"]) for r in regs) \
+        or "no linked package registers on it today, any future dependency may"
+    lists = {"OR": routes, "OB": tab["bindings"], "OM": tab["muxes"], "OS": tab["servers"], "ON": routes, "OC": routes, "OA": routes,
+             "OX": mx.get("rows") or [], "OE": mx.get("escapes") or []}
     for name, items in lists.items():
         ix = _indices(out, name)
         if ix is None:
@@ -108,6 +128,18 @@ def extra(ctx):
             elif name == "OB":
                 found.append({"what": "a RegisterFunc value is bound to %s at %s, which is not home.httpRegister" % (it["text"], it["pos"]),
                               "detail": it, "key": "binding:" + it["pos"]})
+            elif name == "OX":
+                how = {"default": "which is http.DefaultServeMux", "nil": "i.e. no handler of its own: net/http serves http.DefaultServeMux",
+                       "unknown": "whose origin the translator cannot establish", "fresh": "a fresh mux, but neither the admin mux nor the loopback profiling mux"}[it["kind"]]
+                found.append({"what": "the server at %s (%s in %s, listening on %s) serves the mux %s, %s%s; on the process-global default mux: %s: "
+                                      "such paths are answered on that server without any wrapper of package home in front (see C11_default_mux_refuted)"
+                                      % (it["pos"], it["what"], it["func"], it.get("addr") or "?", it["mux"], how,
+                                         " (" + it["why"] + ")" if it.get("why") else "", onmux),
+                              "detail": it, "key": "mux-not-private:" + it["pos"]})
+            elif name == "OE":
+                found.append({"what": "the mux %s is handed to %s at %s (in %s): that code can register handlers on it which no wrapper of package home stands in front of; "
+                                      "only the profiling server's own mux may go to httputil.RoutePprof" % (it["mux"], it["callee"], it["pos"], it["func"]),
+                              "detail": it, "key": "mux-escape:" + it["pos"]})
             elif name == "OM":
                 found.append({"what": "an http.ServeMux is created at %s in %s (assigned to %s): not the admin mux nor the profiling mux"
                                       % (it["Pos"], it["Func"], it["Target"]), "detail": it, "key": "mux:" + it["Pos"]})
@@ -115,6 +147,13 @@ def extra(ctx):
                 found.append({"what": "the server at %s (%s, listening on %s) serves %s: neither the admin mux alone nor the profiling mux on localhost"
                                       % (it["pos"], it["what"], it.get("addr") or "?", ", ".join(it["leaves"])),
                               "detail": it, "key": "server:" + it["pos"]})
+    for m in mx.get("default_mentions") or []:
+        found.append({"what": "the module mentions http.DefaultServeMux at %s; on that mux: %s" % (m, onmux), "detail": m, "key": "mux-default-mention:" + m.split(" ")[0]})
+    if not mx.get("pprof_guarded") and any(r["func"].endswith(".startPprof") for r in mx.get("rows") or []):
+        found.append({"what": "the profiling server (runtime profiles without authentication on the loopback address) is not started under `if ...Pprof.Enabled` only: " + "; ".join(mx.get("pprof_calls") or ["no call of startPprof found"]),
+                      "detail": mx.get("pprof_calls"), "key": "mux-pprof-unguarded"})
+    if not any(r["mux"] == "globalContext.mux" for r in mx.get("rows") or []):
+        found.append({"what": "no server of the module serves globalContext.mux any more: the translator does not know where the admin routes are served", "detail": None, "key": "mux-no-admin-server"})
     exp = ["PostInstall", "OptionalAuth", "Gzip", "Ensure"]
     got = [w["kind"] for w in (tab["reg_method"] or [])]
     if got != exp or [w["kind"] for w in (tab["reg_empty"] or [])] != ["PostInstall"]:
@@ -156,11 +195,12 @@ def extra(ctx):
     if cbad:
         found.append({"what": "handleInstallConfigure / writers of globalContext.firstRun: " + ("; ".join(cc.get("notes") or []) or "idiom not recognised (%s)" % ", ".join(cbad)),
                       "detail": cc, "key": "configure:" + ",".join(cbad)})
+    ctx.extra_discharged += len(mx.get("rows") or []) + len(mx.get("escapes") or []) + 2 - len([f for f in found if f["key"].startswith("mux-")])
     if not found:
         ctx.extra_discharged += len(routes)
         return
     ctx.extra_discharged += len(routes) - len([f for f in found if f["key"].startswith("route:")])
     # put the precise statements first, so that the replay file names them
-    fails = [{"kind": "proof", "what": ("C11_startup_code fails: " if f["key"].startswith("startup:") else "C11_routes_refusal_uniform fails: " if f["key"].startswith("route-not-blind:") else "C11_routes_methods_canonical fails: " if f["key"].startswith("route-method:") else "C11_wrappers_code fails: " if f["key"].startswith("wrapper-not-lazy:") else "C11_configure_code fails: " if f["key"].startswith("configure:") else "C11_routes_after_setup fails: " if f["key"].startswith("route-after-setup:") else "C11_all_routes_guarded fails: ") + f["what"], "detail": f["detail"],
+    fails = [{"kind": "proof", "what": ("C11_startup_code fails: " if f["key"].startswith("startup:") else "C11_routes_refusal_uniform fails: " if f["key"].startswith("route-not-blind:") else "C11_routes_methods_canonical fails: " if f["key"].startswith("route-method:") else "C11_wrappers_code fails: " if f["key"].startswith("wrapper-not-lazy:") else "C11_configure_code fails: " if f["key"].startswith("configure:") else "C11_routes_after_setup fails: " if f["key"].startswith("route-after-setup:") else "C11_admin_muxes_private fails: " if f["key"].startswith("mux-") else "C11_all_routes_guarded fails: ") + f["what"], "detail": f["detail"],
               "finding_key": f["key"], "failing_input_found": False} for f in found]
     ctx.failures[:0] = fails
